@@ -104,8 +104,13 @@ def build_files(edges, a_in, a_out, c_io, eE, eX, rX, lro):
             fields.append(("x", "msg:X"))
         if i == 1 and rX:
             fields.append(("x_name", "string", {"ref": "sel.googleapis.com/X"}))
+        if i == 0:
+            fields.append(("labels", "string", {"map": ("string", "string")}))
+            fields.append(("by_key", "string", {"map": ("string", "msg:MV")}))     # MV is reachable only as a map value
         msgs.append(fb.message(f"M{i}", fields))
     fb.message("N", [("v", "string")], parent=msgs[0])
+    fb.message("MV", [("k", "enum:MVKind")])
+    fb.enum("MVKind", ["MV_UNSPECIFIED", "MV_ONE"])
     fb.enum("NE", ["NE_UNSPECIFIED"], parent=msgs[0])
     s1 = fb.service("Svc1")
     fb.method(s1, "A", f"M{a_in}", f"M{a_out}")
@@ -138,10 +143,10 @@ def reference(edges, a_in, a_out, c_io, eE, eX, rX, lro, keep):
                 changed = True
     msgs = {f"M{i}" for i in reach}
     if 0 in reach:
-        msgs.add("M0.N")
+        msgs |= {"M0.N", "MV", "M0.LabelsEntry", "M0.ByKeyEntry"}      # nested type, map entries and the map's value type
     enums = set()
     if 0 in reach:
-        enums.add("M0.NE")
+        enums |= {"M0.NE", "MVKind"}
     if 1 in reach and eE:
         enums.add("E")
     if (2 in reach and eX) or (1 in reach and rX):
@@ -164,7 +169,8 @@ def run(edges, a_in, a_out, c_io, eE, eX, rX, lro, keep, internal):
                 or set(p.services) != set(v.services):
             return False
     if internal:
-        if got_msgs != {"M0", "M1", "M2", "M0.N", "X", "Y"} or got_enums != {"E", "M0.NE"}:
+        if got_msgs != {"M0", "M1", "M2", "M0.N", "X", "Y", "MV", "M0.LabelsEntry", "M0.ByKeyEntry"} or \
+                got_enums != {"E", "M0.NE", "MVKind"}:
             return False
         if got_methods != {"Svc1.A", "Svc1.B", "Svc2.C"}:
             return False
